@@ -194,6 +194,58 @@ def search_tmc_coincidences(chk, r, n):
         chk.search_case("tmc_coinciding_requests", not problems, what="; ".join(problems) or "-", data=sample, sample=sample)
 
 
+def search_process_histories(chk, r, n):
+    """histories that span several runs of one Python process: the last run of a sequence of
+    *different* configurations must be bit-identical to the same run in a fresh process (module- and
+    class-level memo tables, e.g. of scale-variation operators or TMC weights, must not leak)"""
+    from .c18 import worker
+
+    gA = cards.default_grid(9, 0.01)
+    gB = list(gA)
+    gB[3] = float(0.5 * (gA[3] + gA[4]))  # same size, one node moved
+    gB[6] = float(0.5 * (gA[6] + gA[7]))
+    scenarios = [
+        ("equal-size grids, scale-variation orders", dict(PTO=1), dict(interpolation_xgrid=gA), dict(PTO=1), dict(interpolation_xgrid=gB), "F2_total", "NC"),
+        ("degree scan on one grid with TMC", dict(PTO=0, TMC=3), dict(interpolation_xgrid=gA, interpolation_polynomial_degree=3), dict(PTO=0, TMC=3), dict(interpolation_xgrid=gA, interpolation_polynomial_degree=2), "F2_light", "NC"),
+        ("scheme change", dict(PTO=1, FNS="FFNS", NfFF=3), dict(interpolation_xgrid=gA), dict(PTO=1, FNS="ZM-VFNS"), dict(interpolation_xgrid=gA), "F2_total", "EM"),
+        ("log / linear interpolation", dict(PTO=1), dict(interpolation_xgrid=gA, interpolation_is_log=True), dict(PTO=1), dict(interpolation_xgrid=gA, interpolation_is_log=False), "F3_total", "CC"),
+        ("charged / neutral current with cross section", dict(PTO=0), dict(interpolation_xgrid=gA, prDIS="CC", ProjectileDIS="neutrino"), dict(PTO=0), dict(interpolation_xgrid=gA), "F2_total", "NC"),
+        ("target mass on / off", dict(PTO=0, TMC=1), dict(interpolation_xgrid=gA), dict(PTO=0, TMC=0), dict(interpolation_xgrid=gA), "FL_total", "NC"),
+    ]
+    for i in range(n):
+        what, thA, obA, thB, obB, name, proc = scenarios[i % len(scenarios)]
+        pts = [dict(x=float(gA[4]), Q2=20.0), dict(x=0.3, Q2=20.0)]
+        kwB = dict(prDIS=proc, ProjectileDIS="neutrino" if proc == "CC" else "electron", interpolation_polynomial_degree=3)
+        kwA = dict(kwB)
+        kwA.update(obA)
+        kwB.update(obB)
+        runA = dict(theory=cards.theory(**thA), observables=cards.obs({name: pts}, **kwA))
+        runB = dict(theory=cards.theory(**thB), observables=cards.obs({name: pts}, **kwB))
+        env = {"NUMBA_DISABLE_JIT": "1"}
+        try:
+            seq = worker(env, dict(kernels=[], runs=[runA, runB]))["runs"]
+            alone = worker(env, dict(kernels=[], runs=[runB]))["runs"]
+        except Exception as e:  # noqa
+            chk.search_case("last_run_of_a_process_vs_fresh_process", False, what=f"{what}: worker failed: {e}"[:200], data=dict(scenario=what))
+            continue
+        b_seq, b_alone = seq[1], alone[0]
+        problems = []
+        if "error" in b_alone:
+            chk.search_case("last_run_of_a_process_vs_fresh_process", True, what=None, data=dict(scenario=what, note="reference run rejected: " + b_alone["error"]), nontrivial=False)
+            continue
+        if "error" in b_seq:
+            problems.append("run fails only after another run: " + b_seq["error"][:120])
+        else:
+            for j, (pa, pb) in enumerate(zip(b_seq["ok"][name], b_alone["ok"][name])):
+                for k in set(pa) | set(pb):
+                    va, vb = np.array(pa.get(k, 0.0)), np.array(pb.get(k, 0.0))
+                    if va.shape != vb.shape or not np.array_equal(va, vb):
+                        d = float(np.abs(va - vb).max()) if va.shape == vb.shape else float("nan")
+                        problems.append(f"point {j} order {k}: differs by {d:.3g}")
+        d = dict(scenario=what, first=dict(theory=thA, obs={k_: v_ for k_, v_ in obA.items()}), second=dict(theory=thB, obs={k_: v_ for k_, v_ in obB.items()}), observable=name, problems=problems[:6])
+        chk.search_case("last_run_of_a_process_vs_fresh_process", not problems, what=f"{what}: {name} computed after another run in the same process differs from a fresh process: " + "; ".join(problems[:3]), data=d, sample=d if i == 0 else None)
+
+
 def run(tier):
     chk = common.Check("C14", tier)
     thorough = tier == "thorough"
@@ -203,6 +255,7 @@ def run(tier):
     corr_plan(chk, r, 60 if thorough else 10)
     search_histories(chk, r, 60 if thorough else 8)
     search_tmc_coincidences(chk, r, 20 if thorough else 3)
+    search_process_histories(chk, r, 12 if thorough else 3)
     chk.assumptions += [
         "an ESF object's result is a deterministic function of (observable, x, Q2, class) and the run configuration: hidden state inside numba/LeProHQ/scipy and the memo tables of pure functions (sv operators, n3lo interpolators) are outside the model; the bit-exact comparison of real runs is what would expose them",
         "requests are well formed (dicts contain x and Q2); a request lacking one is a caller error",
